@@ -90,6 +90,8 @@ def finish(d):
                 d.auth_reply("ASuccess")
                 continue
             break
+    if any(e == "EvKill KC" for e in d.events):
+        return      # a killed connection must end by itself: no PING / QUIT that would end it anyway
     if d.blocked() == "read":
         d.payload(("ping",))
     if d.blocked() == "read":
@@ -235,6 +237,10 @@ def run(ctx: core.Ctx):
         for i in range(nscript + 1):
             for k in ("KQ", "KC"):
                 drivers.append(run_with_kills(rng, depeof, {i: [k]}, batch=2))
+    # KILL QUERY immediately followed by KILL CONNECTION (and the reverse) at every position, in every tier
+    for i in range(nscript + 1):
+        for ks in (["KQ", "KC"], ["KC", "KQ"]):
+            drivers.append(run_with_kills(rng, i % 2 == 0, {i: ks}, batch=2))
     single = len(drivers)
     # two kills at ordered pairs of positions
     pairs = [(i, j) for i in range(nscript + 1) for j in range(i, nscript + 1)]
